@@ -285,7 +285,7 @@ def vi_undiscounted(sx, shape, version, K, extra_dead=False, undef='sym', dead_p
         sx.observe('V', [res.state_value[s] for s in range(sh.S)])
 
 
-def pi_batch(sx, order):
+def pi_batch(sx, order, mixed_discount=False):
     """PolicyIteration.batch_plan_on on TWO undiscounted problems of equal shape whose never-terminating states differ: every
     result is the one plan_on gives for that problem alone (values, placeholder rows, initial value, policy)"""
     H = F(1, 2)
@@ -298,7 +298,12 @@ def pi_batch(sx, order):
     from msdm.algorithms.policyiteration import PolicyIteration
     K = 2 ** 3 + 2
     with facade(sx), fork_isclose(merge=MERGE_PI):
+        if mixed_discount:
+            # the first problem's discount rate is the INTEGER 1, the other problem is discounted (9/10)
+            shB = shB.with_(gamma=F(9, 10))
         mA, mB = build_mdp(sx, shA, rewA), build_mdp(sx, shB, rewB)
+        if mixed_discount:
+            mA.discount_rate = 1
         batch = [(shA, rewA, mA), (shB, rewB, mB)]
         if order == 'BA':
             batch.reverse()
@@ -591,6 +596,7 @@ def jobs(tier):
             yield ('vi_versions_agree', dict(shape=i, gamma='1/2', K=3 if quick else 5), o)
     for order in ['AB', 'BA']:
         yield ('pi_batch', dict(order=order), o)
+        yield ('pi_batch', dict(order=order, mixed_discount=True), o)
     for pl in ['vi-vectorized', 'vi-dict', 'pi']:
         for gs in (['1/2'] if quick else ['1/2', '9/10']):
             yield ('sticky_state', dict(planner=pl, gamma=gs), o)
